@@ -107,6 +107,9 @@ func prepare(src string) (*prepared, bool, error) {
 			}
 		}
 	}); g != nil {
+		if rec.QueuePanic(g) {
+			return nil, false, nil // listed dependency finding, identified by its call site: the specification is skipped
+		}
 		return nil, false, g
 	}
 	if perr != nil || derr != nil {
